@@ -53,7 +53,8 @@ pub fn render_cell(c: &CellRef) -> String {
 /// does a sheet name need quoting in a reference? (anything but a plain identifier that cannot
 /// be mistaken for a cell reference)
 pub fn sheet_needs_quotes(name: &str) -> bool {
-    let plain = name.chars().all(|c| c.is_ascii_alphanumeric() || c == '_' || c == '.') && !name.chars().next().map_or(true, |c| c.is_ascii_digit());
+    // (letters of any script count as letters: Excel writes Übersicht!A1 without quotes)
+    let plain = name.chars().all(|c| c.is_alphanumeric() || c == '_' || c == '.') && !name.chars().next().map_or(true, |c| c.is_ascii_digit());
     if !plain {
         return true;
     }
